@@ -224,14 +224,32 @@ m = {
                                    "facts, branch-oracle and scenario runs, polynomial normal forms, NumPy/SciPy API table"}],
     "checks": [],
     "notes": "All checks: ./check <id> [--tier quick|thorough]; exit 0 held / 1 VIOLATION / 2 ANALYSIS-ERROR "
-             "(inconclusive, never a pass). Self-test of the rules: python -m selftest.run (mutants, twins and the 80 seeded "
-             "changes kept under seeded/, see seeded/MATRIX.md, and the 60 behaviour-preserving twins kept under twins/, which must "
-             "stay silent). known_findings.json: one known finding (K1, C20), twelve fixed.",
+             "(inconclusive, never a pass). Self-test of the rules: python -m selftest.run (about 900 planted variants, the 160+ seeded "
+             "changes kept under seeded/, see seeded/MATRIX.md, and the 291 behaviour-preserving twins kept under twins/, which must "
+             "never answer exit 1; honest exit-2 pairs are listed with reasons in twins/known_inconclusive.json). known_findings.json: one known finding (K1, C20), fourteen fixed.",
     "not_applicable": [],
 }
+# clauses added in the later rounds (DESIGN.md 9.14-9.20), appended to the level text of the property they belong to
+ADDENDA = {
+    "C01": " Also: the T = 0 selector is located or inconclusive; a located selector with a non-zero threshold is refuted.",
+    "C02": " Also (R-CALLS): the response functions have no in-place effect on their arguments (results do not depend on the calls made before).",
+    "C04": " Also (R-OWNS): constructor and reset_values store a fresh array, so no write that bypasses the object's invalidation reaches its values.",
+    "C08": " Also: a record given as a list reaches array routines before any `+` / `*` (list + list concatenates); R-OWNS as in C04; a running sum of adjacent pair sums times h/2 is typed as the trapezoid rule.",
+    "C09": " Also: integer-typed records (no real partial sum lands in a buffer that inherits the integer dtype); the per-second running total of CAVdp is recorded after the window's contribution is added.",
+    "C10": " Also: the index array of the crossing mask is read at [0] and [-1] only; a bisection (np.searchsorted) applied to a caller-supplied measure that nothing makes ascending is a violated library precondition.",
+    "C11": " Also: the plateau cleaner keeps exactly the samples whose exact difference to the predecessor is non-zero (no edit of the differences before the test, no tolerance).",
+    "C12": " Also: the exact plateau-cleaner rule of C11 (the switched peaks are chosen among its output).",
+    "C13": " Also: the exact plateau-cleaner rule of C11; a count of peaks up to a sample read with np.searchsorted(peaks, arange(n)) uses side='right'.",
+    "C07": " Also: literal positions other than [0] / [-1] on the index array of the mask and near misses of the last-True idiom (len - k - argmax(reversed), k != 1) are refuted; the direct form may delegate its window to the matrix form.",
+    "C17": " Also (R-BP-LEN alignment): the offset at which the record is embedded in the padded buffer (slice store, np.concatenate, np.pad) equals the offset at which the filtered buffer is cropped -- compared as symbolic integers and, when the expressions differ, constant-folded over sample lengths for a witness.",
+}
+POLICY = (" Verdict policy (DESIGN.md 9.19): a rule refutes only on a definite contradicting component or a located wrong construct; what is not derived, "
+          "or a construct the rule cannot locate (a redesign), is answered exit 2 (inconclusive), never exit 1 and never exit 0.")
 for i in ids:
     if i in CLAIMS:
         tech, text, note = CLAIMS[i]
+        text = text + ADDENDA.get(i, "")
+        note = note + POLICY
         m["checks"].append({
             "property_id": i, "quick_cmd": "./check %s --tier quick" % i,
             "thorough_cmd": "./check %s --tier thorough" % i,
